@@ -635,6 +635,16 @@ static void pubfile_followups(KSI_PublicationsFile *pf) {
 		b1[0] = b2[0] = 0;
 		KSI_PublicationRecord_toString(pr, b1, sizeof b1);
 		CALL(); r = KSI_PublicationRecord_clone(pr, &cl); NOTE(r);
+		if (r == KSI_OK && cl != NULL) {
+			/* the copy is the application's own: giving it another time must not reach the record of the file */
+			KSI_PublicationData *cpd = NULL;
+			KSI_Integer *nt = NULL, *ot = NULL;
+			if (KSI_PublicationRecord_getPublishedData(cl, &cpd) == KSI_OK && cpd != NULL && KSI_Integer_new(ctx, 1234567, &nt) == KSI_OK) {
+				KSI_PublicationData_getTime(cpd, &ot);
+				if (KSI_PublicationData_setTime(cpd, nt) != KSI_OK) KSI_Integer_free(nt);
+				else KSI_Integer_free(ot);       /* the setter stores the new value; the former one is the caller's to release */
+			}
+		}
 		KSI_PublicationRecord_free(cl);
 		KSI_DataHash_create(ctx, "c12-clone-a", 11, KSI_HASHALG_SHA2_256, &h1);
 		KSI_DataHash_create(ctx, "c12-clone-b", 11, KSI_HASHALG_SHA2_256, &h2);
